@@ -261,3 +261,39 @@ func H_C17_Unmarshal_ReqNest() {
 	verifAssert((err != nil) == !complete, "Unmarshal reports an error iff a nested message lacks a required field")
 	verifReach("end")
 }
+
+
+// ======================================================================================================
+// C08 on proto2 messages (required fields, declared packing) and on extendable messages
+
+func H_C08_TInt32()    { pbC08(&TInt32{}, c08N(5, 7)) }
+func H_C08_TSint64()   { pbC08(&TSint64{}, c08N(5, 7)) }
+func H_C08_TSfixed32() { pbC08(&TSfixed32{}, c08N(6, 8)) }
+func H_C08_TDouble()   { pbC08(&TDouble{}, c08N(6, 10)) }
+func H_C08_TBool()     { pbC08(&TBool{}, c08N(5, 7)) }
+func H_C08_TEnum()     { pbC08(&TEnum{}, c08N(5, 7)) }
+func H_C08_TString()   { pbC08(&TString{}, c08N(5, 7)) }
+func H_C08_TBytes()    { pbC08(&TBytes{}, c08N(5, 7)) }
+func H_C08_Msgs()      { pbC08(&Msgs{}, c08N(5, 6)) }
+func H_C08_Req2()      { pbC08(&Req2{}, c08N(5, 6)) }
+func H_C08_ReqNest()   { pbC08(&ReqNest{}, c08N(5, 6)) }
+
+func H_C08_XInt32()    { xsetup_XInt32(); pbC08(&XInt32{}, c08N(5, 7)) }
+func H_C08_XSint64()   { xsetup_XSint64(); pbC08(&XSint64{}, c08N(5, 7)) }
+func H_C08_XBool()     { xsetup_XBool(); pbC08(&XBool{}, c08N(5, 7)) }
+func H_C08_XSfixed32() { xsetup_XSfixed32(); pbC08(&XSfixed32{}, c08N(6, 8)) }
+func H_C08_XDouble()   { xsetup_XDouble(); pbC08(&XDouble{}, c08N(6, 10)) }
+func H_C08_XString()   { xsetup_XString(); pbC08(&XString{}, c08N(5, 7)) }
+func H_C08_XBytes()    { xsetup_XBytes(); pbC08(&XBytes{}, c08N(5, 7)) }
+func H_C08_XAll()      { xsetup_XAll(); pbC08(&XAll{}, c08N(5, 6)) }
+
+func H_C08_Len_TInt32()    { pbC08Len(&TInt32{}) }
+func H_C08_Len_TSfixed32() { pbC08Len(&TSfixed32{}) }
+func H_C08_Len_TDouble()   { pbC08Len(&TDouble{}) }
+func H_C08_Len_TString()   { pbC08Len(&TString{}) }
+func H_C08_Len_TBytes()    { pbC08Len(&TBytes{}) }
+func H_C08_Len_Msgs()      { pbC08Len(&Msgs{}) }
+func H_C08_Len_Req2()      { pbC08Len(&Req2{}) }
+func H_C08_Len_ReqNest()   { pbC08Len(&ReqNest{}) }
+func H_C08_Len_XAll()      { xsetup_XAll(); pbC08LenIn(&XAll{}, 100, 101) }
+func H_C08_Len_XAllM()     { xsetup_XAll(); pbC08LenIn(&XAll{}, 150, 150) }
